@@ -690,6 +690,7 @@ func init() {
 			{Name: "long", N: func(c *Ctx) int { return 12 }, Run: c03Long, Exhaustive: true},
 			{Name: "byte-runs", N: c03RunsN, Run: c03Runs, Exhaustive: true},
 			{Name: "misspelled-builtins", N: misspelledN, Run: c03Misspelled, Exhaustive: true},
+			{Name: "long-chains", N: func(c *Ctx) int { return len(c03ChainUnits) }, Run: c03Chains, Exhaustive: true},
 			{Name: "nesting", N: c03NestN, Run: c03Nest, Exhaustive: true},
 			{Name: "pad-huge", N: func(c *Ctx) int { return len(c03PadHuge) }, Run: c03Pad, Exhaustive: true},
 			{Name: "deep-nesting", N: func(c *Ctx) int { return len(c03DeepForms) }, Run: c03Deep, Exhaustive: true},
@@ -757,4 +758,26 @@ func c03Runs(c *Ctx, idx int) {
 		c.CheckNoPanic(t, map[string]any{"a": map[string]any{"a": "x"}}, map[string]string{"family": "byte-runs", "unit": fmt.Sprintf("%q", unit), "length": fmt.Sprint(n)})
 	}
 	c.Nontrivial("byte-runs", fmt.Sprint(idx))
+}
+
+// ---- long chains of two alternating selectors
+//
+// The parser limits nesting where it recurses through expression(); a chain that alternates two
+// selector kinds can recurse through other routines (a multi-select or wildcard head followed by
+// further selectors) and so grow the stack without being counted.  Each unit is repeated until the
+// text has 16 MB (6 MB for chains that legitimately parse flat and cost memory per node); the calls
+// must return - with a result or an error - and never kill the process.
+var c03ChainUnits = []struct {
+	unit  string
+	bytes int
+}{
+	{"[*].[*]", 16 << 20}, {".*[*]", 16 << 20}, {"[*].{a: a}", 16 << 20}, {"[].[a]", 16 << 20}, {".[a][0]", 16 << 20}, {".*.*", 16 << 20}, {"[*].*", 16 << 20}, {".[*].*", 16 << 20}, {"[?a].[a]", 16 << 20}, {".{a: a}.a", 16 << 20},
+	{".*[0]", 16 << 20}, {"[*][0]", 16 << 20}, {".[a].[a]", 16 << 20}, {"[::2].[a]", 16 << 20}, {" | [a][*]", 16 << 20}, {".a", 6 << 20}, {"[0]", 6 << 20}, {" || a", 6 << 20}, {" | a", 6 << 20}, {"[*]", 6 << 20},
+}
+
+func c03Chains(c *Ctx, idx int) {
+	u := c03ChainUnits[idx]
+	t := "a" + strings.Repeat(u.unit, u.bytes/len(u.unit))
+	c.CheckNoPanic(t, map[string]any{"a": map[string]any{"a": []any{"x"}}}, map[string]string{"family": "long-chains", "unit": u.unit, "bytes": fmt.Sprint(len(t))})
+	c.Nontrivial("long-chains", u.unit)
 }
